@@ -10,27 +10,55 @@ open Ledger.Base Ledger.Core
 def Op.wet (op : Op) : Op := { op with dry := false }
 
 theorem finish_resp_nofault (s : State) (st : RunSt) (h : String) (dry : Bool) (log : Log) :
-    (finish s st h none false dry log).resp = { log := some log } := by
+    (finish s st h [] false dry log).resp = { log := some log } := by
   unfold finish
   cases dry with
   | true => rfl
   | false => rfl
 
-theorem retry_resp_wet (strict : Bool) (op : Op) (s : State) (st : RunSt) :
-    (retry strict op.wet none false s st).resp = (retry strict op none false s st).resp := by
-  unfold retry
-  simp only [fires, Op.wet]
-  generalize run op.now "t2" none (runLog strict op.kind op.ik op.ihash op.sv 2) _ = res
+/-- One attempt of the retry loop, dry versus not: the same failure, or the same answer. -/
+theorem runTx_wet (strict : Bool) (op : Op) (s : State) (i tx : Nat) (seq : Seqs) (n : Nat) (trace : List String) :
+    (∃ e seq' n' trace', runTx strict op.wet [] false s i tx seq n trace = .failed e seq' n' trace' ∧
+        runTx strict op [] false s i tx seq n trace = .failed e seq' n' trace') ∨
+    (∃ o o', runTx strict op.wet [] false s i tx seq n trace = .done o ∧
+        runTx strict op [] false s i tx seq n trace = .done o' ∧ o.resp = o'.resp) := by
+  unfold runTx
+  simp only [fires_nil, Op.wet]
+  generalize run op.now ("t" ++ toString tx) [] (runLog strict op.kind op.ik op.ihash op.sv i) _ = res
   obtain ⟨r, st1⟩ := res
   cases r with
-  | error e => rfl
-  | ok log => simp only [finish_resp_nofault, Option.isSome_none, Bool.false_eq_true, ↓reduceIte]
+  | error e =>
+    simp only
+    split
+    · exact Or.inr ⟨_, _, rfl, rfl, rfl⟩
+    · exact Or.inl ⟨_, _, _, _, rfl, rfl⟩
+  | ok log =>
+    simp only [Bool.false_eq_true, ↓reduceIte]
+    cases op.dry with
+    | true => exact Or.inr ⟨_, _, rfl, rfl, rfl⟩
+    | false => exact Or.inr ⟨_, _, rfl, rfl, rfl⟩
+
+theorem retryLoop_resp_wet (strict : Bool) (op : Op) (s : State) (fuel i tx : Nat) (seq : Seqs) (n : Nat)
+    (trace : List String) :
+    (retryLoop strict op.wet [] false s fuel i tx seq n trace).resp =
+    (retryLoop strict op [] false s fuel i tx seq n trace).resp := by
+  induction fuel generalizing i tx seq n trace with
+  | zero => rfl
+  | succ fuel ih =>
+    unfold retryLoop
+    rcases runTx_wet strict op s i tx seq n trace with ⟨e, seq', n', trace', h1, h2⟩ | ⟨o, o', h1, h2, hr⟩
+    · rw [h1, h2]
+      simp only
+      split
+      · exact ih _ _ _ _ _
+      · rfl
+    · rw [h1, h2]; exact hr
 
 theorem forgeLog_resp_wet (strict : Bool) (op : Op) (s : State) :
-    (forgeLog strict op.wet none false s).resp = (forgeLog strict op none false s).resp := by
+    (forgeLog strict op.wet [] false s).resp = (forgeLog strict op [] false s).resp := by
   unfold forgeLog
-  simp only [fires, Op.wet]
-  generalize run op.now "t1" none (ikLookup op.ik op.ihash) _ = res1
+  simp only [fires_nil, Op.wet]
+  generalize run op.now "t1" [] (ikLookup op.ik op.ihash) _ = res1
   obtain ⟨r1, st1⟩ := res1
   cases r1 with
   | error e => rfl
@@ -39,13 +67,13 @@ theorem forgeLog_resp_wet (strict : Bool) (op : Op) (s : State) :
     | some l => rfl
     | none =>
       simp only
-      generalize run op.now "t1" none (runLog strict op.kind op.ik op.ihash op.sv 1) st1 = res2
+      generalize run op.now "t1" [] (runLog strict op.kind op.ik op.ihash op.sv 1) st1 = res2
       obtain ⟨r2, st2⟩ := res2
       cases r2 with
       | error e =>
         simp only
         split
-        · exact retry_resp_wet strict op s _
+        · exact retryLoop_resp_wet strict op s _ _ _ _ _ _
         · rfl
       | ok log => simp only [finish_resp_nofault]
 
